@@ -9,6 +9,7 @@
 import WD.Proofs.Pipeline.Theorems
 import WD.Proofs.Pipeline.FlatSpec
 import WD.Proofs.Pipeline.Sound
+import WD.Proofs.Pipeline.BurstFiles
 namespace WD.C03
 open WD WD.Pipe
 
@@ -86,5 +87,24 @@ theorem typing (fs : FS) (recursive full : Bool) (ev : LEv) (e : PEv)
     | (split at he
        · simp at he; subst he; simp
        · simp at he)
+
+/-- file operations issued back to back: what a burst of file operations delivers when it is read as one batch is
+    the concatenation of the contracts of its operations, in order - nothing missing, nothing added, nothing reordered -/
+theorem contract_refined_file_burst_partial (fs0 : FS) (hwf : fs0.WF) (full : Bool) (pre burst : List Op)
+    (hv : allValid (Sys.start fs0 true full) pre = true) (hroot : Op.rmdir ["W"] ∉ pre)
+    (hb : allFile ((Sys.start fs0 true full).run pre).1 burst = true) :
+    (((Sys.start fs0 true full).run pre).1.burst burst).2 =
+      (contractRun ((Sys.start fs0 true full).run pre).1.fs true full burst).flatten := by
+  obtain ⟨inv, hs, hc, _, h5⟩ := start_rec fs0 hwf full
+  have hr := run_rec _ pre inv hs hc hv
+  have hst : ((Sys.start fs0 true full).run pre).1.stopped = false := by
+    cases h : ((Sys.start fs0 true full).run pre).1.stopped
+    · rfl
+    · exact absurd ((stopped_iff _ pre inv hs hc hv).1 h) hroot
+  rw [burst_files _ burst (hr.2.2 hst) hst hr.2.1 hb]
+  have := (run_rec _ burst (hr.2.2 hst) hst hr.2.1 (allValid_of_allFile burst _ hb)).1
+  rw [run_full, h5] at this
+  simp only
+  rw [this]
 
 end WD.C03
